@@ -78,7 +78,7 @@ pub const OP_NAMES: [&str; N_OPS] = [
     "pairing(P, Q)",
     "miller_loop over two pairs + final_exponentiation",
     "encode/decode G1 compressed, G2 uncompressed",
-    "hash_to_curve G1, encode_to_curve G2",
+    "hash_to_curve G1, encode_to_curve G2, hash_to_field Fr (requests ending in a partial block)",
     "serialize/deserialize G2, Fr, Fq12",
     "G1::random under a fixed-seed xorshift",
     "Fq sqrt, Fq2 sqrt, Fq12 inverse",
@@ -183,6 +183,14 @@ pub fn run_op(i: usize) -> Vec<u8> {
         12 => {
             let mut out = raw_g1(&<G1 as HashToCurve<ExpandMsgXmd<sha2::Sha256>>>::hash_to_curve(b"determinism", b"QUUX-V01-CS02-with-BLS12381G1_XMD:SHA-256_SSWU_RO_"));
             out.extend(raw_g2(&<G2 as HashToCurve<ExpandMsgXmd<sha2::Sha256>>>::encode_to_curve(b"determinism", b"QUUX-V01-CS02-with-BLS12381G2_XMD:SHA-256_SSWU_NU_")));
+            // requests that end in a partial hash block (48 and 144 bytes of SHA-256 output, 33 bytes of SHA-512 output)
+            for cnt in [1usize, 3] {
+                for x in pairing_plus::hash_to_field::hash_to_field::<Fr, ExpandMsgXmd<sha2::Sha256>>(b"determinism", b"QUUX-V01-CS02-with-suite", cnt) {
+                    let p = &x as *const Fr as *const u8;
+                    out.extend_from_slice(unsafe { std::slice::from_raw_parts(p, std::mem::size_of::<Fr>()) });
+                }
+            }
+            out.extend(<ExpandMsgXmd<sha2::Sha512> as pairing_plus::hash_to_field::ExpandMsg>::expand_message(b"determinism", b"QUUX-V01-CS02-with-suite", 33));
             out
         }
         13 => {
